@@ -2,6 +2,7 @@ package props
 
 import (
 	"fmt"
+	"math"
 	"os"
 	"path/filepath"
 	"sort"
@@ -330,6 +331,9 @@ func c04Run(c *ev.Ctx) {
 		for _, i := range order {
 			s.Ops = append(s.Ops, ops[i])
 		}
+	} else if c.Index == nCore+7 || c.Index == nCore+8 {
+		c04BeyondFourGiB(c)
+		return
 	} else {
 		s = c04Random(r)
 	}
@@ -567,6 +571,61 @@ func c04Run(c *ev.Ctx) {
 	_ = oob
 }
 
+// c04BeyondFourGiB: a dataset of 4 GiB that is created and never written (the file is sparse)
+// moves the end of file past 2^32; objects created behind it must land there and leave the
+// small datasets at the start of the file alone.
+func c04BeyondFourGiB(c *ev.Ctx) {
+	r := c.R
+	sbv := []uint8{0, 2, 3}[r.Intn(3)]
+	s := &hx.Script{SB: sbv}
+	want := map[string][]uint64{}
+	add := func(p string, n int) {
+		v := hx.GenNumeric(r, "[]i32", n, 3)
+		s.Ops = append(s.Ops, hx.Op{K: "create_ds", Path: p, DT: "i32", Dims: []uint64{uint64(n)}, Data: &v})
+		want[p] = v.AsFloat64Bits()
+	}
+	for i := 0; i < 4; i++ {
+		add(fmt.Sprintf("/v%d", i), r.Range(100, 600))
+	}
+	s.Ops = append(s.Ops, hx.Op{K: "create_ds", Path: "/big", DT: "f64", Dims: []uint64{(1<<32 - uint64(r.Range(8, 2500))) / 8}}) // the end of file crosses 2^32 by less than what lies in front of this dataset
+	for i := 0; i < 3; i++ {
+		add(fmt.Sprintf("/y%d", i), r.Range(1, 300))
+		if i == 0 {
+			av := hx.ScalarOf(r, "i32")
+			s.Ops = append(s.Ops, hx.Op{K: "attr", Path: "/v1", Name: "late", Data: &av})
+		}
+	}
+	path := filepath.Join(c.Dir, "big.h5")
+	e := hx.Run(path, s)
+	defer os.Remove(path)
+	c.Case(fmt.Sprintf("beyond-4GiB|sb%d", sbv), true)
+	c.Count("histories_with_end_of_file_beyond_4GiB", 1)
+	for i, res := range e.Res {
+		if i < len(s.Ops) && !res.OK() {
+			c.Violation("beyond-4GiB:call-failed:"+s.Ops[i].K, map[string]any{"sb": sbv, "op": s.Ops[i].String(), "res": res})
+			return
+		}
+	}
+	d := dump.File(path, dump.Options{MaxElems: 1 << 20})
+	if !d.OpenRes.OK() {
+		c.Violation("beyond-4GiB:open-fail", map[string]any{"sb": sbv, "open": d.OpenRes})
+		return
+	}
+	for p, w := range want {
+		o := d.Get(p)
+		if o == nil || !o.ReadRes.OK() || len(o.Read) != len(w) {
+			c.Violation("beyond-4GiB:dataset-unreadable", map[string]any{"sb": sbv, "path": p})
+			continue
+		}
+		for j := range w {
+			if o.Read[j] != w[j] {
+				c.Violation("beyond-4GiB:content-changed", map[string]any{"sb": sbv, "path": p, "index": j, "read": math.Float64frombits(o.Read[j]), "written": math.Float64frombits(w[j])})
+				break
+			}
+		}
+	}
+}
+
 func logicalOf(d *dump.Dump, p string) string {
 	if o := d.Get(p); o != nil {
 		l := o.Logical()
@@ -616,7 +675,7 @@ func c04VictimKind(s *hx.Script, owner string) string {
 var C04 = &ev.Property{
 	ID:    "C04",
 	Level: "exploration",
-	Rule: "histories over 2-6 live objects: (1) every order of the core set {create X, create Y, write X, write Y, attribute on X, attribute on Y, hard link to X, resize X} that respects create-before-use (2688 linear extensions: all in the thorough tier, 200 sampled in the quick tier), (2) random histories of 3-22 operations (create dataset/group, attribute bursts crossing into dense storage, delete attribute, rewrite, hard link, resize, soft/external link objects, variable-length datasets whose elements fill the shared 4 KiB heap collection to the last byte / exceed it / are small — histories with such data are also compared prefix by prefix through the independent decoder) on superblock 0/2/3, one in three split over two sessions (Close, OpenForWrite, OpenDataset for every dataset, rest of the history). " +
+	Rule: "histories over 2-6 live objects: (1) every order of the core set {create X, create Y, write X, write Y, attribute on X, attribute on Y, hard link to X, resize X} that respects create-before-use (2688 linear extensions: all in the thorough tier, 200 sampled in the quick tier), (2) random histories of 3-22 operations (create dataset/group, attribute bursts crossing into dense storage, delete attribute, rewrite, hard link, resize, soft/external link objects, variable-length datasets whose elements fill the shared 4 KiB heap collection to the last byte / exceed it / are small — histories with such data are also compared prefix by prefix through the independent decoder) on superblock 0/2/3, one in three split over two sessions (Close, OpenForWrite, OpenDataset for every dataset, rest of the history); two histories per run hold a 4 GiB dataset that is never written, with objects created behind it (end of file beyond 2^32, sparse file). " +
 		"Each history is executed once under a byte-ownership monitor (file snapshot before/after every call, changed bytes attributed through the allocator's block list) and once per prefix length into a fresh file; the dump after prefix k restricted to the objects op_k does not target must equal the dump after prefix k-1. non-trivial: >=2 judged prefixes; distinct = (superblock, core/random, sequence of operation kinds with their targets).",
 	Assumptions: []string{
 		"an operation may change its target object, the parent group it links into and (hard link) the link target",
